@@ -539,6 +539,18 @@ Definition lock_utxos (s : state) (ks : list (N * N)) (h : N) : state * res unit
   | Panic => (s, Panic)
   end.
 
+(* LockGhostKeys (called by Validate), fork = false *)
+Fixpoint has_dup (l : list N) : bool :=
+  match l with [] => false | x :: r => mem_N x r || has_dup r end.
+
+Definition lock_ghost_keys (s : state) (ks : list N) (h : N) : state * res unit :=
+  if has_dup ks then (s, Err)
+  else match lock_ghosts s ks h with
+       | Ok s' => (s', Ok tt)
+       | Err => (s, Err)
+       | Panic => (s, Panic)
+       end.
+
 Fixpoint ord_inputs (ins : list input) : list (N * N) :=
   match ins with
   | [] => []
@@ -578,7 +590,8 @@ Inductive op :=
 | OpRound (node num : N) (refs : N * N)
 | OpGenesis (xin : N * N) (l : list (snapshot * tx))
 | OpWriteTx (t : tx)
-| OpLock (t : tx)                               (* LockUTXOs(ordinary inputs of t, hash t) *)
+| OpLock (ks : list (N * N)) (h : N)            (* LockUTXOs(inputs, tx hash, fork = false) *)
+| OpGhost (ks : list N) (h : N)                 (* LockGhostKeys(keys, tx hash, fork = false) *)
 | OpSnapshot (sn : snapshot) (signers : list N).
 
 Definition step (s : state) (o : op) : state * res unit :=
@@ -586,7 +599,8 @@ Definition step (s : state) (o : op) : state * res unit :=
   | OpRound node num refs => (start_round s node num refs, Ok tt)
   | OpGenesis xin l => load_genesis s xin l
   | OpWriteTx t => write_transaction s t
-  | OpLock t => lock_utxos s (ord_inputs (t_inputs t)) (t_hash t)
+  | OpLock ks h => lock_utxos s ks h
+  | OpGhost ks h => lock_ghost_keys s ks h
   | OpSnapshot sn sg => write_snapshot s sn sg
   end.
 
